@@ -213,6 +213,8 @@ def _judge(sc, run, found):
                         nid, a, e["t1"] / 1e6, table_at(hist, e["t1"], e["t1"])))
             elif name == "release":
                 connected = e["addr_before"] != UNASSIGNED
+                if connected and e["res"] == [0, 0] and e["addr"] == e["addr_before"] and lossy(e["t0"], e["t1"]):
+                    continue        # the release frame was not acknowledged by the parent (half-duplex clash): documented False
                 if connected and (e["res"] != [0, 1] or e["addr"] != UNASSIGNED):
                     return ("C17/release-failed", "node id %d: release_address() -> %s, node_address %o" % (nid, e["res"], e["addr"]))
                 if not connected and e["res"] != [0, 0]:
